@@ -356,7 +356,7 @@ def _oracle_select(op, snap):
     if name == "path_length":
         return [i for i in range(n) if snap["lens"][i] >= p["min_length"]], set()
     if name == "start_end_distance":
-        return [i for i in range(n) if int(np.abs(np.asarray(ms[i].start_pos) - np.asarray(ms[i].end_pos)).sum()) >= p["min_distance"]], set()
+        return [i for i in range(n) if sum(abs(int(a) - int(b)) for a, b in zip(ms[i].start_pos, ms[i].end_pos)) >= p["min_distance"]], set()
     if name == "cut_percentile_shortest":
         if n == 0:
             return None, {"IndexError", "ValueError"}       # percentile of nothing: rule undefined
@@ -1074,6 +1074,40 @@ def _large_sequences(ctx, n):
             return
 
 
+def _far_endpoints(ctx, n):
+    """mazes whose endpoints are far apart on big grids (Manhattan distance and solution length around 127/128/129 and beyond), with the
+    coordinates stored as int8 — the way every dataset comes back from the minimal on-disk formats — and as int64. Oracle only, judged
+    with Python integers."""
+    rng = ctx.rng
+    for k in range(n):
+        g = rng.choice([70, 100, 128])
+        cl = np.ones((2, g, g), dtype=bool); cl[0, g - 1, :] = False; cl[1, :, g - 1] = False
+        conn = "".join("1" if x else "0" for x in cl.reshape(-1))
+        items = []
+        for want in [100, 126, 127, 128, 129, 130, 138, 2 * (g - 1), rng.randrange(90, 2 * (g - 1))]:
+            dr = min(g - 1, (want + 1) // 2); dc = min(g - 1, want - dr)
+            a, b = rng.randrange(0, g - dr), rng.randrange(0, g - dc)
+            sol = [[a + i, b] for i in range(dr + 1)] + [[a + dr, b + j] for j in range(1, dc + 1)]
+            if rng.random() < 0.5: sol.reverse()
+            items.append(dict(shape=[2, g, g], conn=conn, sol=sol, sol_dtype=rng.choice(["int8", "int8", "int64"]) if g <= 128 else "int64", meta=None))
+        rng.shuffle(items)
+        ops = [{"kind": "reg", "name": "start_end_distance", "args": [rng.choice([0, 1, 100, 127, 128, 129, 139])], "kwargs": []},
+               {"kind": "reg", "name": "path_length", "args": [rng.choice([0, 101, 128, 129, 130, 140])], "kwargs": []},
+               {"kind": "reg", "name": "cut_percentile_shortest", "args": [{"f": rng.choice([10.0, 50.0])}], "kwargs": []},
+               {"kind": "reg", "name": "remove_duplicates_fast", "args": [], "kwargs": []}]
+        case = {"kind": "seq", "cfg": {"name": "c08far", "grid_n": g, "seed": 42}, "items": items, "ops": [rng.choice(ops) for _ in range(rng.randint(1, 2))], "mode": "far", "metamode": "none"}
+        try:
+            _run_seq_real(ctx, case, oracle=True, want_model=False)
+        except Exception as e:
+            ctx.notes.append(f"far-endpoint sequence stopped: {type(e).__name__}: {str(e)[:100]}")
+        ctx.case(json.dumps(dict(far=g, ops=case["ops"], k=k)), nontrivial=True); ctx.count("far_endpoint_sequences")
+        if ctx.violations:
+            for v in ctx.violations:
+                if isinstance(v.get("case"), dict) and v["case"].get("mode") == "far":
+                    v["case"] = dict(v["case"], items=[dict(it, conn=f"full {g}x{g} lattice") for it in v["case"]["items"]], far=True)
+            return
+
+
 def run(ctx):
     warnings.filterwarnings("ignore")
     cases = []
@@ -1094,6 +1128,7 @@ def run(ctx):
     _table_check(ctx)
     _edit_sequences(ctx, 40 if ctx.quick else 800)
     if not ctx.violations: _large_sequences(ctx, 6 if ctx.quick else 80)
+    if not ctx.violations: _far_endpoints(ctx, 6 if ctx.quick else 60)
     reqs, metas = [], []
     for case in cases:
         if case["kind"] == "seq":
@@ -1120,6 +1155,8 @@ def search(ctx):
     warnings.filterwarnings("ignore")
     _large_sequences(ctx, 20)
     if ctx.violations: return
+    _far_endpoints(ctx, 30)
+    if ctx.violations: return
     for case in itertools.chain(_regression_cases(), _pair_cases()):
         _run_seq_real(ctx, case, oracle=True, want_model=False)
         ctx.case(_canon_case(case))
@@ -1140,6 +1177,14 @@ def replay(ctx, rp):
     warnings.filterwarnings("ignore")
     case = rp.get("case", rp)
     case = {k: v for k, v in case.items() if k not in ("failing_step", "step")}
+    if case.get("large"):
+        _large_sequences(ctx, 20); return
+    if case.get("far"):
+        g = case["cfg"]["grid_n"]
+        cl = np.ones((2, g, g), dtype=bool); cl[0, g - 1, :] = False; cl[1, :, g - 1] = False
+        conn = "".join("1" if x else "0" for x in cl.reshape(-1))
+        case = dict(case, items=[dict(it, conn=conn) for it in case["items"]])
+        _run_seq_real(ctx, case, oracle=True, want_model=False); return
     if case["kind"] == "seq":
         req, obs, _ = _run_seq_real(ctx, case)
         rep = ctx.driver.run([req])[0]
